@@ -16,6 +16,12 @@
 //! * `recv:registered`                     — `channel::Receiver::poll_next`
 //! * `memo:before-take`, `memo:taken`, `memo:before-reactivity`,
 //!   `memo:reactivity-held`, `memo:released` — `MemoInner::update_if_necessary`
+//! * `memo:cleared`, `memo:unlocked`       — `MemoInner::update_if_necessary`: after `inner_1`
+//!   (sources dropped, own lock released) and in `inner_2` right after `drop(reactivity_lock)`,
+//!   before the subscribers are marked dirty (so that a thread that was blocked on the lock
+//!   can be run to its next yield point before the releasing thread goes on)
+//! * `sources:clearing`                    — `SourceSet::clear_sources`, before each
+//!   `remove_subscriber` (a subscriber dropping its sources before it re-runs)
 use std::sync::{
     atomic::{AtomicBool, Ordering},
     Arc, RwLock,
